@@ -22,6 +22,18 @@ func (w *Worker) visible(fr *frame, what string) {
 	}
 }
 
+// atomicEdge: a sync/atomic operation on address p is an acquire+release point (and its own access is not a race candidate)
+func (w *Worker) atomicEdge(p Value) {
+	if w.sched.raceOn() {
+		if vp, ok := p.(*Value); ok {
+			w.raceAcquire(atomicAddr{vp})
+			w.raceRelease(atomicAddr{vp}, true)
+		}
+	}
+}
+
+type atomicAddr struct{ p *Value }
+
 func (w *Worker) syncOp(fr *frame, name string, a []Value) Value {
 	if w.sched != nil {
 		return w.syncOpSched(fr, name, a)
@@ -97,6 +109,7 @@ func (w *Worker) chanRecv(fr *frame, c *Chan, commaOk bool, t types.Type, pos to
 func (w *Worker) chanClose(fr *frame, c *Chan, pos token.Pos) {
 	if w.sched != nil {
 		w.yieldPoint(nil, "close")
+		w.raceRelease(chanClose{c}, false)
 	}
 	if c == nil {
 		panic(targetPanic{v: Iface{t: w.rtErrType, v: mkStr("close of nil channel")}, where: fr.where(pos)})
